@@ -6,6 +6,7 @@ package ua
 
 import (
 	"fmt"
+	"io"
 	"math"
 	"reflect"
 	"time"
@@ -143,6 +144,12 @@ func decodeSlice(b []byte, val reflect.Value, name string) (int, error) {
 		return buf.Pos(), buf.Error()
 	}
 
+	// every element with at least one field is at least one byte long.
+	// Do not allocate memory for elements which cannot be in the buffer.
+	if int(n) > buf.Len() && !isEmptyStruct(elemType) {
+		return buf.Pos(), io.ErrUnexpectedEOF
+	}
+
 	pos := buf.Pos()
 	// a is a slice of []*Foo
 	a := reflect.MakeSlice(val.Type(), int(n), int(n))
@@ -164,6 +171,15 @@ func decodeSlice(b []byte, val reflect.Value, name string) (int, error) {
 	val.Set(a)
 
 	return pos, nil
+}
+
+// isEmptyStruct returns true for a struct or a pointer to
+// a struct which has no fields and therefore no encoding.
+func isEmptyStruct(t reflect.Type) bool {
+	if t.Kind() == reflect.Ptr {
+		t = t.Elem()
+	}
+	return t.Kind() == reflect.Struct && t.NumField() == 0 && !reflect.PtrTo(t).Implements(binaryDecoder)
 }
 
 func decodeArray(b []byte, val reflect.Value, name string) (int, error) {
